@@ -325,7 +325,7 @@ def sum_(*args):
     return sum(data)
 
 
-def sumif(rng, criteria, sum_range=None):
+def sumif(rng, criteria, sum_range=Ellipsis):
     # Excel reference: https://support.microsoft.com/en-us/office/
     #   SUMIF-function-169b8c99-c05c-4483-a712-1697a653039b
 
@@ -337,7 +337,8 @@ def sumif(rng, criteria, sum_range=None):
     #  beginning cell, and then including cells that correspond in size and
     #  shape to the range argument.
 
-    if sum_range is None:
+    if sum_range is Ellipsis:
+        # not given, which is not the same as given a blank cell (None)
         sum_range = rng
     return sumifs(sum_range, rng, criteria)
 
